@@ -1931,7 +1931,7 @@ impl SubRule {
             }
         } else if self.input.len() > self.output.len() {
             // TODO(girv): factor this out
-            let start_index = self.input.len() - self.output.len();
+            let start_index = self.output.len();
             for &z in input.iter().skip(start_index).rev() {
                 match z {
                     MatchElement::Segment(mut sp, _) => {
